@@ -674,3 +674,23 @@ func (n *VNode) VProcessOutputs(blk *types.WorkObject) (types.Receipts, []*types
 
 // VHasSnapshots reports whether the zone's state processor runs with a state snapshot tree.
 func (n *VNode) VHasSnapshots() bool { return n.Sl[2].hc.bc.processor.snaps != nil }
+
+// VWalkState visits every node of the state committed by blk - the account trie, every account's
+// storage trie and code - through the state's node iterator, from what the databases hold: "the
+// head's state is fully present". Returns the number of nodes visited.
+func (n *VNode) VWalkState(blk *types.WorkObject) (int, error) {
+	z := n.Sl[2]
+	st, err := z.hc.bc.processor.StateAt(blk.EVMRoot(), blk.EtxSetRoot(), blk.QuaiStateSize())
+	if err != nil {
+		return 0, fmt.Errorf("open state: %w", err)
+	}
+	it := state.NewNodeIterator(st)
+	cnt := 0
+	for it.Next() {
+		cnt++
+	}
+	if it.Error != nil {
+		return cnt, it.Error
+	}
+	return cnt, nil
+}
